@@ -806,3 +806,48 @@ def _(a):
     if not (isinstance(gh.lo, LoopIR.Const) and isinstance(gh.hi, LoopIR.Const)):
         return False
     return gh.lo.val == gh.hi.val
+
+
+# ----------------------------------------------------------------------------
+# _DoNormalize.map_s on a loop: the iterator's range (from the *normalised*
+# bounds) is in the environment while the body is normalised, so a division or
+# modulo in the body is only dropped when that is justified by the loop bounds.
+# End-to-end over the real pass (closures not abstracted): literal divisors,
+# symbolic loop bounds and offsets.
+
+cnm = contract("C12", F, "_DoNormalize.map_s", name=F + "::_DoNormalize.map_s[For body]")
+cnm.native_modules.add("exo.core.internal_cursors")
+_NI, _NX = Sym("i"), Sym("x")
+
+@cnm.inputs
+def _(g):
+    op = g.choose(["/", "%"], "op")
+    d = g.choose([2, 4], "d")
+    lo, hi = LoopIR.Const(g.int("lo"), T.int, SRC), LoopIR.Const(g.int("hi"), T.int, SRC)
+    off = LoopIR.Const(g.int("b"), T.int, SRC)
+    num = LoopIR.BinOp("+", LoopIR.Read(_NI, [], T.index, SRC), off, T.index, SRC)
+    idx = LoopIR.BinOp(op, num, LoopIR.Const(d, T.int, SRC), T.index, SRC)
+    st = LoopIR.Assign(_NX, T.f32, [idx], LoopIR.Const(1.0, T.f32, SRC), SRC)
+    loop = LoopIR.For(_NI, lo, hi, [st], LoopIR.Seq(), SRC)
+    ir = LoopIR.proc("p", [LoopIR.fnarg(_NX, T.Tensor([LoopIR.Const(64, T.int, SRC)], False, T.f32), DRAM, SRC)],
+                     [], [loop], None, SRC)
+    o = object.__new__(LS._DoNormalize)
+    o.C = CSYM
+    o.env = IndexRangeEnvironment(ir)
+    o.ir = ir
+    o.fwd = lambda x: x
+    o.provenance = None
+    return {"self": o, "sc": _ic.Cursor.create(ir).body()[0], "__ghost__": {"idx": idx, "lo": lo, "hi": hi}}
+
+@cnm.requires
+def _(a):
+    gh = a.ghost
+    return And(gh.lo.val <= rho(_NI), rho(_NI) < gh.hi.val)
+
+@cnm.ensures("inside the loop the normalised index has the value of the original index")
+def _(a):
+    body = a.self.ir.body
+    if not (len(body) == 1 and isinstance(body[0], LoopIR.For) and len(body[0].body) == 1):
+        return False
+    new_idx = body[0].body[0].idx[0]
+    return And(ev(new_idx) == ev(a.ghost.idx), ev(body[0].lo) == a.ghost.lo.val, ev(body[0].hi) == a.ghost.hi.val)
